@@ -1,9 +1,102 @@
-/- stub: transcription of rrul_fill_Dly pending -/
-import Echse.Model.RrBase
+/-
+  Model of `rrul_fill_dly` (src/evrrul.c:1645-1810, FREQ=DAILY).  Hand transcription, loop by loop; shares
+  `posMatchP`, `carryMon`, `monMask`, `Enum.timesIx`, `wlyDlyMaxYear`, `wlyDlyFuel` with the weekly filler, to which the
+  daily one hands over for `BYDAY` rules with INTERVAL=1 and neither BYMONTHDAY nor BYSETPOS (1694-1700).
+  Tied to the C code by tools/rrfillprobe.py (vlib/p_rrfill.py).  Results are accumulated in reverse.
+-/
+import Echse.Model.RrWly
 namespace Echse.Rrule
 open Echse.Instant
 
-/-- `none` = not modelled yet -/
-def fillDly (_r : Rule) (_proto : Inst) (_nti : Nat) : Option (List Inst) := none
+/-- 1718-1734: the two day-of-month masks `(posd_mask, negd_mask)`: `posd_mask |= 1U << tmp` for positive days,
+`negd_mask |= 1U << (unsigned int)(-++tmp)` for negative ones (-1 is bit 0); both all ones (32 bits) when nothing is set -/
+def domMasks (dom : List Int) : Nat × Nat :=
+  let (p, n) := dom.foldl (fun (pn : Nat × Nat) (t : Int) =>
+    if t > 0 then (pn.1 ||| ((1 <<< t.toNat) % u32), pn.2)
+    else if t < 0 then (pn.1, pn.2 ||| ((1 <<< (-(t + 1)).toNat) % u32))
+    else pn) (0, 0)
+  if p = 0 ∧ n = 0 then (u32 - 1, u32 - 1) else (p, n)
+
+/-- `1U << k` for an `unsigned int k`: a count ≥ 32 is undefined in C; x86 (and the code gcc emits here) takes the count
+mod 32.  Only reached with `k ≥ 32` when the proto's day exceeds its month's length (`maxd - d` wraps). -/
+def shl1 (k : Nat) : Nat := 1 <<< (k % 32)
+
+structure DlyCtx where
+  r : Rule
+  proto : Inst
+  nti : Nat
+  e : Enum
+  wdMask : Nat
+  mMask : Nat
+  posdMask : Nat
+  negdMask : Nat
+  posp : Bool
+
+/-- 1777-1806: the ENUM loop of the day `y-m-d`; result `(res, fin)`, `fin` = `goto fin` was taken.
+Recursion over the (finite) list of time triples. -/
+def dlyEnum (c : DlyCtx) (y m d : Nat) :
+    List ((Nat × Nat × Nat) × (Nat × Nat × Nat)) → List Inst → List Inst × Bool
+  | [], res => (res, false)
+  | ((iH, iM, iS), (h, mi, s)) :: rest, res =>
+    if ¬ res.length < c.nti then (res, false) else
+    let x := mkInst y m d h mi s c.proto.ms
+    if ltP x c.proto then dlyEnum c y m d rest res                           -- continue
+    else if ltP c.r.untl x then (res, true)                                  -- goto fin
+    else if c.posp && !posMatchP c.r.pos
+        ((iH * c.e.M.length + iM) * c.e.S.length + iS + 1) (c.e.H.length * c.e.M.length * c.e.S.length) then
+      dlyEnum c y m d rest res                                               -- not one of the day's chosen instances
+    else
+      -- echs_instant_attach_scale(x, GREGORIAN): the top four bits of y are cleared
+      dlyEnum c y m d rest ({ x with y := x.y % 4096 } :: res)
+
+/-- 1737-1807: the outer `for (res = 0, w = wday(y, m, d), maxd = ndim(y, m); res < nti; ({ d += inter; w += inter;
+if (w > SUN) w = (w - 1U) % 7U + 1U; <month carry> }))` loop over the days.  `none` out of fuel (see `wlyDlyFuel`). -/
+def dlyLoop (c : DlyCtx) : Nat → Nat → Nat → Nat → Nat → Nat → List Inst → Option (List Inst)
+  | 0, _, _, _, _, _, _ => none
+  | fuel+1, y, m, d, w, maxd, res =>
+    if ¬ res.length < c.nti then some res else
+    -- 1759-1762
+    if y > wlyDlyMaxYear ∨ y > c.r.untl.y then some res else                 -- break
+    -- 1765-1775: the three `continue`s, else the ENUM loop
+    let skip : Bool :=
+      !bit c.wdMask w || !bit c.mMask m ||
+      ((c.posdMask &&& shl1 d) = 0 && (c.negdMask &&& shl1 ((maxd + u32 - d) % u32)) = 0)
+    let (res, fin) := if skip then (res, false) else dlyEnum c y m d c.e.timesIx res
+    if fin then some res else
+    -- the loop's increment expression
+    let d := (d + c.r.inter % u32) % u32
+    let w := (w + c.r.inter % u32) % u32
+    let w := if w > 7 then (w - 1) % 7 + 1 else w
+    match carryMon (d + 1) y m d maxd with
+    | none => none
+    | some none => some res                                                  -- beyond the scale's range
+    | some (some (y, m, d, maxd)) => dlyLoop c fuel y m d w maxd res
+
+/-- `rrul_fill_dly(tgt, nti, rr)` with `*tgt = proto`, SCALE=GREGORIAN -/
+def fillDly (r : Rule) (proto : Inst) (nti : Nat) : Option (List Inst) :=
+  -- echs_instant_rescale: only a proto without scale bits on a GREGORIAN rule is left as it is
+  if r.scale ≠ 0 ∨ proto.y ≥ 4096 then none else
+  let y := proto.y
+  let m := proto.m
+  let d := proto.d
+  let posp := !r.pos.isEmpty
+  -- 1666-1670
+  match capNti r nti with
+  | none => some []
+  | some nti =>
+  -- 1672-1675
+  if m = 0 ∨ m > 12 ∨ d = 0 ∨ d > 31 then some [] else
+  -- 1677-1689: bit w for plain weekdays, bit 0 for counted ones (uint8_t)
+  let wdMask := wdMaskOf r.dow
+  -- 1690-1700
+  if wdMask / 2 ≠ 0 ∧ r.inter % u32 = 1 ∧ r.dom.isEmpty ∧ !posp then
+    fillWly r proto nti                                                      -- return rrul_fill_wly(tgt, nti, rr)
+  else
+  let wdMask := if wdMask / 2 = 0 then wdMask ||| 0b11111110 else wdMask
+  let e := makeEnum proto r
+  let mMask := monMask r.mon
+  let (posdMask, negdMask) := domMasks r.dom
+  let c : DlyCtx := { r, proto, nti, e, wdMask, mMask, posdMask, negdMask, posp }
+  (dlyLoop c (wlyDlyFuel y nti) y m d (ymdGetWday y m d) (getNdom y m) []).map List.reverse
 
 end Echse.Rrule
